@@ -901,7 +901,9 @@ fn pipe_item<'a>(w: Arc<World>, pipe_op: OpId, s: usize, p: &'a mut Payload, ite
                 Step::Touch => w.touch(id, p),
                 Step::Yield => vthread::yield_now(),
                 Step::AwaitGate { g } => {
-                    GateWait::new(&w, *g as usize, Some(id)).await;
+                    // successive items wait for successive gates, so that one item can be ready while the next one is held up
+                    let ng = (w.case.cfg.gates as usize).max(1);
+                    GateWait::new(&w, (*g as usize + item as usize) % ng, Some(id)).await;
                 }
                 Step::SelfWake => SelfWake { w: w.clone(), op: id, polled: false }.await,
                 Step::NestedDesync { o, body, id: nid } => {
